@@ -105,7 +105,9 @@ class World:
 
     # ---- the peers
     def peer_may_speak(self, point: str) -> None:
-        if self.mute or self.pending or self.emissions >= self.sc.get("max_emissions", 12):
+        if self.mute or self.emissions >= self.sc.get("max_emissions", 12):
+            return
+        if self.pending and not self.sc.get("overlap"):
             return
         opts = self.nexts.get(tuple(self.hist))
         if not opts:
@@ -163,11 +165,19 @@ class World:
             self.hist.append(("!", None, "!"))       # the peers have left the protocol
         # fragmentation: a composition of the word, chunk by chunk, from the tape; and per chunk: early / late
         rest = word
+        chunks = []
         while rest:
             n = 1 + self.tape.choose(len(rest))
             late = self.tape.choose(2) == 1
-            self.pending.append({"s": o[0], "r": recipient, "data": rest[:n], "late": late})
+            chunks.append({"s": o[0], "r": recipient, "data": rest[:n], "late": late})
             rest = rest[n:]
+        # "overlap" scenarios: a party speaks again while data of an earlier message is still on its way; every
+        # (sender, recipient) channel is FIFO, across channels the tape decides how the chunks interleave
+        lo = 1 + max((i for i, c in enumerate(self.pending) if (c["s"], c["r"]) == (o[0], recipient)), default=-1)
+        for ch in chunks:
+            pos = lo + self.tape.choose(len(self.pending) - lo + 1)
+            self.pending.insert(pos, ch)
+            lo = pos + 1
 
     def deliver_one(self, ch: dict) -> None:
         data = self.enc(ch["data"])
